@@ -12,6 +12,7 @@ Control flow is followed through calls (returns resume after the call), loops ru
 state set, and conditions on the solve status split the state set (value-sensitive: a helper that returns the
 comparison is inlined as that comparison)."""
 from .terms import *
+from .absint import iter_effects
 
 
 def status_polarity(cond, optimal_terms):
@@ -215,6 +216,11 @@ class Walker:
                         self.violations.append(('unchecked', e, last))
                     elif st == 'failed':
                         self.violations.append(('failed', e, last))
+                    if getattr(self, 'loop_stack', None):
+                        d_ = dict(cnt)
+                        for lid_ in self.loop_stack:
+                            d_[('insolve', lid_)] = 'pos'
+                        cnt = frozenset(d_.items())
                     new.add(('unchecked', e, cnt))
                 cur = new
             elif k == 'snap':
@@ -263,9 +269,34 @@ class Walker:
                 frontier = set(cur)
                 out_brk = set()
                 rounds = 0
+                # a loop that solves once per element (the per-rank loops of greedy / generous): leaving it right after a solve
+                # that WAS Optimal skips the remaining elements - legitimate exits follow a non-Optimal status
+                lid_ = id(e)
+                solving = k == 'for' and any(x.kind == 'solve' for x, _ in iter_effects(e.body))
+                if not hasattr(self, 'loop_stack'):
+                    self.loop_stack = []
+                def untag(states_):
+                    out_ = set()
+                    for full_ in states_:
+                        st_, last_, cnt_ = self._st(full_)
+                        out_.add((st_, last_, frozenset(kv for kv in cnt_ if kv[0] != ('insolve', lid_))))
+                    return out_
                 while frontier and rounds < 8:
                     rounds += 1
-                    r = self.walk(e.body, frozenset(frontier))
+                    if solving:
+                        self.loop_stack.append(lid_)
+                        frontier = untag(frontier)
+                    try:
+                        r = self.walk(e.body, frozenset(frontier))
+                    finally:
+                        if solving:
+                            self.loop_stack.pop()
+                    if solving:
+                        for full_ in r['brk'] | r['ret']:
+                            st_, last_, cnt_ = self._st(full_)
+                            if st_ == 'clean' and (('insolve', lid_), 'pos') in cnt_:
+                                self.violations.append(('loop-early-exit', e, last_))
+                        r = {k_: untag(v_) for k_, v_ in r.items()}
                     ret |= r['ret']
                     out_brk |= r['brk']
                     nxt = (r['fall'] | r['cont']) - seen
